@@ -66,6 +66,89 @@ def leaf_monitor(script, c):
     return hits
 
 
+def api_scripts(tier, rng):
+    from lib.apigen import default_policy, rand_key, rtp_packet, pkt_op, SSRC_ANY_OUT, SSRC_ANY_IN, SSRC_SPECIFIC
+    out = []
+    n = 12 if tier == "quick" else 120
+    for k in range(n):
+        wildcard = k % 2 == 1
+        ssrcs = [rng.randrange(2, 1 << 32) for _ in range(2 if wildcard else 1)]
+        mki = rng.random() < 0.3
+        kw = {}
+        if mki:
+            kw = dict(keys=[(rand_key(rng, 30), bytes([i, 7])) for i in range(2)], use_mki=True, mki_size=2, use_key_field=False)
+        L = []
+        if wildcard:
+            ps = default_policy(rng, 0, ssrc_type=SSRC_ANY_OUT, **kw)
+            pr = default_policy(rng, 0, ssrc_type=SSRC_ANY_IN, **dict(kw, keys=ps.keys))
+            L += [ps.line(1), pr.line(2), "create 1 1", "create 2 2"]
+        else:
+            ps = default_policy(rng, ssrcs[0], **kw)
+            L += [ps.line(1), "create 1 1", "create 2 1"]
+        seq = {s: 1 for s in ssrcs}
+        def traffic(s, mi=0):
+            pkt = rtp_packet(s, seq[s] & 0xffff, payload=b"budget!!"); seq[s] += 1
+            L.append(f"peek 1 {1 if wildcard else 0} {H(s)}")
+            L.append(pkt_op("protect", 1, pkt, extra=40, mki_index=mi)); a = len(L)
+            L.append(f"peek 1 {1 if wildcard else 0} {H(s)}"); L.append(f"# TX {s:x} {mi}")
+            L.append(f"peek 2 {1 if wildcard else 0} {H(s)}")
+            L.append(pkt_op("unprotect", 2, f"@{a:x}", cap=100))
+            L.append(f"peek 2 {1 if wildcard else 0} {H(s)}"); L.append(f"# RX {s:x} {mi}")
+        for s in ssrcs:
+            traffic(s)            # creates the clones
+        start = rng.choice([0x10003, 0x10002, 0x10001, 0x10000, 4, 3, 2, 1])
+        which = 1 if wildcard else 0
+        L.append(f"poke_limit 1 {which} {H(ssrcs[0])} 0 {H(start)} 0")
+        L.append(f"poke_limit 2 {which} {H(ssrcs[0])} 0 {H(start + rng.choice([0, 1, 2]))} 0")
+        for i in range(10):
+            traffic(rng.choice(ssrcs), 0)
+            if mki and rng.random() < 0.3:
+                traffic(rng.choice(ssrcs), 1)          # the other key is not affected
+        L += ["dealloc 1", "dealloc 2"]
+        out.append((f"budget-{k}", "\n".join(L) + "\n"))
+    return out
+
+
+def api_monitor(script, c):
+    """per call: budget of the key in use drops by exactly one (peek field: num_left of key 0), soft event
+    exactly when the new budget is in (0,2^16), key_expired + hard event when it reaches 0, and for ever after."""
+    hits = []
+    sl = script.split("\n")
+    out = {int(l.split()[0]): l.split() for l in c if l.strip()}
+    dead = set()
+    for i, l in enumerate(sl, 1):
+        t = l.split()
+        if len(t) < 4 or t[0] != "#" or t[1] not in ("TX", "RX") or t[3] != "0":
+            continue
+        side = t[1]
+        before, op, after = out.get(i - 3, []), out.get(i - 2, []), out.get(i - 1, [])
+        if len(op) < 8 or len(before) < 11 or len(after) < 11 or before[2] != "0" or after[2] != "0":
+            continue
+        st = int(op[2], 16)
+        b, a = int(before[10], 16), int(after[10], 16)
+        ev = op[7]
+        evs = [int(ev[j:j + 2], 16) for j in range(0, len(ev), 10)] if ev != "-" else []
+        if side in dead and st != 0xf:
+            hits.append({"what": f"call on an expired key did not fail with key_expired (status {st:x})", "signature": "api-expiry-not-permanent:" + op[1],
+                         "detail": f"line {op[0]}"}); return hits
+        if st == 0xf:
+            dead.add(side)
+            if a != 0 or 2 not in evs:
+                hits.append({"what": "key_expired without exhausted budget or without hard-limit event", "signature": "api-hard-event:" + op[1],
+                             "detail": f"line {op[0]}: budget {b:x}->{a:x} events {evs}"}); return hits
+            continue
+        if st == 0:
+            if a != b - 1:
+                hits.append({"what": "a processed packet did not consume exactly one unit of the key budget", "signature": "api-unit:" + op[1],
+                             "detail": f"line {op[0]}: {b:x}->{a:x}"}); return hits
+            want_soft = 0 < a < 0x10000
+            if want_soft != (1 in evs):
+                hits.append({"what": "soft-limit event not raised exactly when the remaining budget is below 2^16", "signature": "api-soft-event:" + op[1],
+                             "detail": f"line {op[0]}: budget {a:x} events {evs}"}); return hits
+    return hits
+
+
 def families(tier, seed):
     rng = random.Random(seed * 1000 + 9)
-    return [Family("keylimit-leaf", leaf_scripts(tier, rng), monitor=leaf_monitor)]
+    return [Family("keylimit-leaf", leaf_scripts(tier, rng), monitor=leaf_monitor),
+            Family("keylimit-api", api_scripts(tier, rng), monitor=api_monitor)]
